@@ -1,11 +1,13 @@
 import GoomVerif.Drv.Util
 import GoomVerif.Model.Mem
+import GoomVerif.Model.MemHist
 /-! Driver for C14.
 
 * `c14.ps <a>`                                  → `ps=<PageStart a>`                       (generated `Gen.Page.PageStart`)
 * `c14.write <off> <hexdata> <perms>`           → `res=… calls=… win=<start>:<hex> perms=…`
     a scratch region of `len perms` pages at a page-aligned base; `perms` is a comma list, one letter per page:
     `x`=r-x `w`=rwx `r`=r-- `d`=rw- `u`=unmapped; byte `i` of the region initially holds `pat i`.
+* `c14.writewx <off> <hexdata> <perms>`         → the same with the kernel refusing write+execute (fall-back path)
 * `c14.gen <funcSize> …`                        → `ok len=13` | `err:<class>`               (jumpdata.go size test)
 * `c14.install <entryOff> <funcSize> <orig13> …` → install without placeholder on an r-x image, then unpatch
   (further `key=value` tokens name the real function for the probe and are ignored here)
@@ -38,8 +40,9 @@ def charOfPerm : Option Perm → String
 def parsePerms (s : String) : Option (List (Option Perm)) :=
   (s.splitOn ",").mapM (fun t => match t.toList with | [c] => permOfChar c | _ => none)
 
-def mkState (perms : List (Option Perm)) (content : Nat → Byte) : State :=
-  { mem := fun q => content (q.toNat - base.toNat),
+def mkState (perms : List (Option Perm)) (content : Nat → Byte) (deny : Bool := false) : State :=
+  { denyWX := deny,
+    mem := fun q => content (q.toNat - base.toNat),
     perm := fun p =>
       let d := p.toNat - base.toNat
       if base.toNat ≤ p.toNat ∧ d % 4096 = 0 then (perms.getD (d / 4096) none) else none }
@@ -49,24 +52,41 @@ def relHex (p : Addr) : String :=
 
 def protName (pr : Perm) : String := (if pr.r then "r" else "") ++ (if pr.w then "w" else "") ++ (if pr.x then "x" else "")
 
-def call (pr : Perm) (ok : Bool) (p : Addr) : String :=
-  s!"{relHex p}:{pageSize}:{protName pr}={if ok then "0" else "ENOMEM"}"
+def errName : Err → String
+  | .enomem _ => "ENOMEM"
+  | .eacces _ => "EACCES"
+  | .segv _ => "SEGV"
 
-/-- the `mprotect` calls a `writeTo` with this outcome has issued, in order, with their results -/
-def callsOf (a : Addr) (n : Nat) (o : Outcome) : List String :=
-  let ps := pages a n
-  let upTo (p : Addr) (pr : Perm) := (ps.takeWhile (· != p)).map (call pr true) ++ [call pr false p]
-  match o with
-  | .ok => ps.map (call RWX true) ++ ps.map (call RX true)
-  | .fallback (.enomem p) => upTo p RWX
-  | .fallback _ => ["?"]
-  | .fault _ => ps.map (call RWX true)
-  | .panicRX (.enomem p) => ps.map (call RWX true) ++ upTo p RX
-  | .panicRX _ => ["?"]
+/-- log of one `mprotect` pass: every step is executed with the model's own `Mem.step`; returns the rendered calls, the
+    state reached and whether the pass failed (this is `Mem.run` with a log) -/
+def tracePass : State → List Step → List String → List String × State × Bool
+  | s, [], acc => (acc.reverse, s, false)
+  | s, st :: rest, acc =>
+    match st, step s st with
+    | .mprotect p pr, .ok s' => tracePass s' rest (s!"{relHex p}:{pageSize}:{protName pr}=0" :: acc)
+    | .mprotect p pr, .error e => ((s!"{relHex p}:{pageSize}:{protName pr}={errName e}" :: acc).reverse, s, true)
+    | .store _ _, .ok s' => tracePass s' rest acc
+    | .store _ _, .error _ => (acc.reverse, s, true)
+
+/-- the `mprotect` calls of `WriteTo(a, data)` from state `s`, in order, with results — same control flow as `Mem.writeTo` -/
+def callsOf (a : Addr) (data : List Byte) (s : State) : List String :=
+  let n := data.length
+  let (c1, s1, f1) := tracePass s (protScript a n RWX) []
+  if f1 then
+    let (c2, s2, f2) := tracePass s1 (protScript a n RW) []
+    if f2 then c1 ++ c2 else
+    let (s3, e3) := run s2 (copyScript a data)
+    if e3.isSome then c1 ++ c2 else
+    c1 ++ c2 ++ (tracePass s3 (protScript a n RX) []).1
+  else
+    let (s2, e2) := run s1 (copyScript a data)
+    if e2.isSome then c1 else
+    c1 ++ (tracePass s2 (protScript a n RX) []).1
 
 def outcomeName : Outcome → String
   | .ok => "ok"
-  | .fallback _ => "fallback"
+  | .okFallback _ => "ok-fallback"
+  | .panicFallback _ => "panic-fallback"
   | .fault _ => "fault"
   | .panicRX _ => "panic-rx"
 
@@ -90,14 +110,14 @@ def segments (off n k : Nat) : List (Nat × Nat) :=
     let bs := ((List.range (k + 1)).map (· * 4096)).filter (fun b => off < b ∧ b < off + n)
     [(off - 16, off + 32)] ++ bs.map (fun b => (b - 8, b + 8)) ++ [(off + n - 32, min top (off + n + 16))]
 
-def doWrite (off : Nat) (data : List Byte) (perms : List (Option Perm)) : String :=
+def doWrite (off : Nat) (data : List Byte) (perms : List (Option Perm)) (deny : Bool := false) : String :=
   let k := perms.length
   let a := base + BitVec.ofNat 64 off
-  let s0 := mkState perms pat
+  let s0 := mkState perms pat deny
   let (s1, o) := writeTo a data s0
   let segs := (segments off data.length k).map (fun (lo, hi) => s!"{lo}:{window s1 lo hi}")
   let ps := (List.range k).map (fun i => charOfPerm (s1.perm (base + BitVec.ofNat 64 (i * 4096))))
-  s!"res={outcomeName o} calls={joinOr (callsOf a data.length o)} win={String.intercalate ";" segs} perms={String.intercalate "," ps}"
+  s!"res={outcomeName o} calls={joinOr (callsOf a data s0)} win={String.intercalate ";" segs} perms={String.intercalate "," ps}"
 
 def maskJump (bs : List Byte) : String :=
   match bs with
@@ -112,6 +132,7 @@ def doInstall (entryOff funcSize : Nat) (orig : List Byte) : String :=
   match install origin to funcSize none s0 with
   | (_, .refused why) => s!"refused:{why}"
   | (s1, .done o) =>
+    let jd0 := Gen.Amd64.jmpToFunctionValue origin to
     let entry := (List.range 13).map (fun i => s1.mem (origin + BitVec.ofNat 64 i))
     let saved := savedOriginBytes s0 origin to          -- what the guard holds (patch.go:123)
     let jd := Gen.Amd64.jmpToFunctionValue origin to
@@ -120,7 +141,173 @@ def doInstall (entryOff funcSize : Nat) (orig : List Byte) : String :=
     let pg := base + BitVec.ofNat 64 4096
     let rel := fun (cs : List String) => cs  -- calls are printed relative to `base`; the probe prints them relative to page(entry)-4096
     let _ := pg
-    s!"apply={outcomeName o} entry={maskJump entry} calls={joinOr (rel (callsOf origin 13 o))} unpatch={outcomeName o2} restored={back == orig} calls2={joinOr (callsOf origin saved.length o2)} lens={saved.length}/{jd.length}"
+    s!"apply={outcomeName o} entry={maskJump entry} calls={joinOr (rel (callsOf origin jd0 s0))} unpatch={outcomeName o2} restored={back == orig} calls2={joinOr (callsOf origin saved s1)} lens={saved.length}/{jd.length}"
+
+/-! ### histories: `c14.hist <targets> | <steps>`
+  target `T:<slot>:<entryOff>:<fsz>:<first13>:<name>` — a real function in text page number `slot`;
+  target `M:<off>:<fsz>:<first13>:<name>`             — a copy of that function at offset `off` of the middle page of its own
+                                                          3-page r-x mapping (may straddle the page end);
+  steps `patch.i apply.i unpatch.i restore.i unpatchfn.i unpatchall unmap.i`.
+  Output per step: `<step>=<res>[<calls>]{<state of every target: o j u ?>}`; page labels `t<slot>` / `m<i>.<k>`. -/
+
+structure HTarget where
+  isM : Bool
+  org : Addr
+  fsz : Nat
+  first : List Byte
+  region : Addr        -- M: start of its mapping
+
+def hbaseT : Nat := base.toNat
+def hbaseM (i : Nat) : Nat := base.toNat + 0x1000000 * (i + 1)
+
+def parseTarget (i : Nat) (t : String) : Option HTarget :=
+  match t.splitOn ":" with
+  | ["T", slot, eo, fsz, first, _] => do
+    let sl ← parseNat slot; let e ← parseNat eo; let f ← parseNat fsz; let b ← parseBytes first
+    pure ⟨false, BitVec.ofNat 64 (hbaseT + 4096 * (1 + sl) + e), f, b, 0⟩
+  | ["M", off, fsz, first, _] => do
+    let o ← parseNat off; let f ← parseNat fsz; let b ← parseBytes first
+    pure ⟨true, BitVec.ofNat 64 (hbaseM i + 4096 + o), f, b, BitVec.ofNat 64 (hbaseM i)⟩
+  | _ => none
+
+def labelOf (ts : List HTarget) (p : Addr) : String :=
+  match (List.range ts.length).find? (fun i => match ts[i]? with
+      | some t => t.isM && t.region.toNat ≤ p.toNat && p.toNat < t.region.toNat + 3 * 4096
+      | none => false) with
+  | some i => s!"m{i}.{(p.toNat - (hbaseM i)) / 4096}"
+  | none => s!"t{(p.toNat - hbaseT) / 4096 - 1}"
+
+/-- calls of one `WriteTo`, with page labels -/
+def hcalls (ts : List HTarget) (a : Addr) (data : List Byte) (s : State) : List String :=
+  let n := data.length
+  let lab := fun (st : Step) (r : String) => match st with
+    | .mprotect p pr => s!"{labelOf ts p}:{protName pr}={r}"
+    | .store _ _ => ""
+  let pass := fun (s : State) (steps : List Step) =>
+    steps.foldl (fun (acc : List String × State × Bool) st =>
+      let (out, cur, failed) := acc
+      if failed then acc else
+      match step cur st with
+      | .ok s' => (out ++ [lab st "0"], s', false)
+      | .error e => (out ++ [lab st (errName e)], cur, true)) ([], s, false)
+  let (c1, s1, f1) := pass s (protScript a n RWX)
+  if f1 then
+    let (c2, s2, f2) := pass s1 (protScript a n RW)
+    if f2 then c1 ++ c2 else
+    let (s3, e3) := run s2 (copyScript a data)
+    if e3.isSome then c1 ++ c2 else c1 ++ c2 ++ (pass s3 (protScript a n RX)).1
+  else
+    let (s2, e2) := run s1 (copyScript a data)
+    if e2.isSome then c1 else c1 ++ (pass s2 (protScript a n RX)).1
+
+/-- the writes an operation attempts, in order (each is attempted only if the previous one returned) -/
+def writesOf (h : HState) : HOp → List (Addr × List Byte)
+  | .patch i => match h.table.find? (fun e => e.1 = i) with
+    | some (_, true) => match h.slots i with
+      | some g => if g.applied then [(g.origin, g.originBytes)] else []
+      | none => []
+    | _ => []
+  | .apply i => match h.slots i with | some g => [(g.origin, g.jumpBytes)] | none => []
+  | .unpatch i => match h.slots i with | some g => if g.applied then [(g.origin, g.originBytes)] else [] | none => []
+  | .restore i => match h.slots i with | some g => if g.applied then [(g.origin, g.jumpBytes)] else [] | none => []
+  | .unpatchFn i => match h.table.find? (fun e => e.1 = i) with
+    | some (_, true) => match h.slots i with
+      | some g => if g.applied then [(g.origin, g.originBytes)] else []
+      | none => []
+    | _ => []
+  | .unpatchAll => h.table.filterMap (fun e => match e.2, h.slots e.1 with
+      | true, some g => if g.applied then some (g.origin, g.originBytes) else none
+      | _, _ => none)
+  | .unmap _ => []
+
+def groupsOf (ts : List HTarget) (s : State) (ws : List (Addr × List Byte)) : List String :=
+  (ws.foldl (fun (acc : List String × State × Bool) w =>
+    let (out, cur, stop) := acc
+    if stop then acc else
+    let cs := hcalls ts w.1 w.2 cur
+    let (s', o) := writeTo w.1 w.2 cur
+    (out ++ ["(" ++ String.intercalate "," cs ++ ")"], s', !o.returned)) ([], s, false)).1
+
+def insertSorted (x : String) : List String → List String
+  | [] => [x]
+  | y :: ys => if x ≤ y then x :: y :: ys else y :: insertSorted x ys
+
+def sortStrings (xs : List String) : List String := xs.foldl (fun acc x => insertSorted x acc) []
+
+def isJump (bs : List Byte) : Bool :=
+  match bs with
+  | [a, b, c, _, _, _, _, _, _, _, _, d, e] => a == 0x90#8 && b == 0x48#8 && c == 0xBA#8 && d == 0xFF#8 && e == 0x22#8
+  | _ => false
+
+def stateVec (ts : List HTarget) (s : State) : String :=
+  String.join (ts.map (fun t =>
+    match s.perm (pageOf t.org) with
+    | none => "u"
+    | some _ =>
+      let cur := readBytes s t.org 13
+      if cur == t.first then "o" else if isJump cur then "j" else "?"))
+
+def lensVec (n : Nat) (h : HState) : String :=
+  String.intercalate "," ((List.range n).map (fun i => match h.slots i with
+    | some g => s!"{g.originBytes.length}/{g.jumpBytes.length}"
+    | none => "-"))
+
+def resName : HRes → String
+  | .ok => "ok"
+  | .noop => "noop"
+  | .refused w => "refused:" ++ w
+  | .panic => "panic"
+
+def parseStep (ts : List HTarget) (t : String) : Option HOp :=
+  match t.splitOn "." with
+  | ["patch", i] => (parseNat i).map HOp.patch
+  | ["apply", i] => (parseNat i).map HOp.apply
+  | ["unpatch", i] => (parseNat i).map HOp.unpatch
+  | ["restore", i] => (parseNat i).map HOp.restore
+  | ["unpatchfn", i] => (parseNat i).map HOp.unpatchFn
+  | ["unpatchall"] => some HOp.unpatchAll
+  | ["unmap", i] => do
+    let k ← parseNat i
+    let t ← ts[k]?
+    if t.isM then pure (HOp.unmap (pageOf t.org)) else none      -- the whole mapping goes; the model needs the entry's page(s)
+  | _ => none
+
+def doHist (ts : List HTarget) (steps : List String) : String :=
+  let L : Layout := { org := fun i => (ts[i]?.map (·.org)).getD 0, fsz := fun i => (ts[i]?.map (·.fsz)).getD 0,
+                      to := 0x00c000123456#64 }
+  let mem0 : Addr → Byte := fun q =>
+    match ts.find? (fun t => t.org.toNat ≤ q.toNat && q.toNat < t.org.toNat + t.first.length) with
+    | some t => t.first.getD (q.toNat - t.org.toNat) 0
+    | none => pat (q.toNat % 4096)
+  let perm0 : Addr → Option Perm := fun p =>
+    if p.toNat % 4096 != 0 then none
+    else if ts.any (fun t => t.isM && t.region.toNat ≤ p.toNat && p.toNat < t.region.toNat + 3 * 4096) then some RX
+    else if hbaseT ≤ p.toNat && p.toNat < hbaseT + 4096 * 64 then some RX else none
+  let h0 : HState := { m := { mem := mem0, perm := perm0 }, slots := fun _ => none, table := [] }
+  let (out, _, _) := steps.foldl (fun (acc : List String × HState × Bool) st =>
+    let (out, h, stop) := acc
+    if stop then acc else
+    match parseStep ts st with
+    | none => (out ++ [st ++ "=bad-step"], h, true)
+    | some (HOp.unmap p) =>
+      -- unmapping the mapping removes all three pages of the region
+      let reg := (ts.find? (fun t => t.isM && pageOf t.org == p)).map (·.region)
+      let h' := match reg with
+        | some r => [0, 1, 2].foldl (fun hh k => (hstep L hh (HOp.unmap (r + BitVec.ofNat 64 (k * 4096)))).1) h
+        | none => h
+      (out ++ [st ++ "=ok[]{" ++ stateVec ts h'.m ++ ";" ++ lensVec ts.length h' ++ "}"], h', false)
+    | some op =>
+      let ws := writesOf h op
+      let gs := groupsOf ts h.m ws
+      let (h', r) := hstep L h op
+      -- UnpatchAll visits goom's map in an unspecified order: if a write in the middle does not return, which targets were
+      -- restored before is not determined
+      if r == HRes.panic && (match op with | HOp.unpatchAll => true | _ => false) && ws.length > 1 then
+        (out ++ [st ++ "=panic[nondet]"], h', true)
+      else
+        let gs' := match op with | HOp.unpatchAll => sortStrings gs | _ => gs
+        (out ++ [st ++ "=" ++ resName r ++ "[" ++ String.join gs' ++ "]{" ++ stateVec ts h'.m ++ ";" ++ lensVec ts.length h' ++ "}"], h', false)) ([], h0, false)
+  String.intercalate " " out
 
 def handle (toks : List String) : Option String :=
   match toks with
@@ -132,6 +319,14 @@ def handle (toks : List String) : Option String :=
     match parseNat off, parseBytes hx, parsePerms perms with
     | some o, some d, some ps => some (doWrite o d ps)
     | _, _, _ => some "bad-op"
+  | ["c14.writewx", off, hx, perms] =>       -- the same under a W^X kernel policy (RWX requests refused)
+    match parseNat off, parseBytes hx, parsePerms perms with
+    | some o, some d, some ps => some (doWrite o d ps true)
+    | _, _, _ => some "bad-op"
+  | "c14.hist" :: tg :: "|" :: steps =>
+    match ((tg.splitOn ",").zipIdx.mapM (fun (t, i) => parseTarget i t)) with
+    | some ts => some (doHist ts steps)
+    | none => some "bad-op"
   | "c14.survey" :: _ => some "oracle-only"
   | "c14.tramp" :: _ => some "oracle-only"
   | "c14.gen" :: fs :: _ =>
